@@ -35,3 +35,11 @@ func VerifSetMver(c *Chain33Config, key string, value interface{}) {
 func VerifSetChainConfig(c *Chain33Config, key string, value interface{}) {
 	c.chainConfig[key] = value
 }
+
+// VerifSetP2PTypes sets the module configuration's p2p types (p2p.NewP2PMgr needs one).
+func VerifSetP2PTypes(c *Chain33Config, tys ...string) {
+	if c.mcfg.P2P == nil {
+		c.mcfg.P2P = &P2P{}
+	}
+	c.mcfg.P2P.Types = tys
+}
